@@ -136,6 +136,8 @@ def pipeline(sc, cfg, mask):
     free = np.ones(V, dtype=bool); free[V - 1] = False
     cfg["variables"] = {"initial_values": [0.0] * V, "mask": [bool(b) for b in free]}
     assign = np.array([0 if m else 1 for m in mask]) if sc["two"] else np.zeros(V, dtype=int)
+    if sc["two"] and sc["P"] % 2 == 0:
+        assign = 1 - assign             # the roles swapped: with a full mask the first configured sampler is the unused one
     if sc["two"]:
         cfg["gradient"] = {**cfg["gradient"], "samplers": [int(a) for a in assign]}
     config = EnOptConfig.model_validate(cfg)
